@@ -34,10 +34,24 @@ Record InvA (mode : bool) (m : mstate) : Prop := {
   i_fresh : forall i, m_n m <= i -> m_phase m i = PNone;
   i_clock : forall i, i < m_n m -> (m_inv m i < m_clock m)%N /\ forall r, m_ret m i = Some r -> (r < m_clock m)%N;
   i_phase : forall i, phase_ok mode m i;
-  i_ids : forall x id, m_res m x = Some (ResTx id) -> N.to_nat id <= length (m_committed m) }.
+  i_ids : forall x id, m_res m x = Some (ResTx id) -> N.to_nat id <= length (m_committed m);
+  i_hub : m_hub m = m_indexed m }.
 
-Ltac proj := cbn [m_n m_inv m_ret m_call m_res m_phase m_clock m_committed m_indexed m_lo m_hi m_split
+Ltac proj := cbn [m_n m_inv m_ret m_call m_res m_phase m_clock m_committed m_indexed m_hub m_lo m_hi m_split
                   op_at o_inv o_ret o_call o_res] in *.
+
+(* the compaction step is excluded by the premise m_split m' = [] of every step lemma; the waits
+   look at m_hub, equal to m_indexed as long as no compaction happened *)
+Ltac kill_compact Hs Hhub Hlen :=
+  try match goal with H : _ < m_indexed _ |- _ => exfalso; clear - Hs; discriminate Hs end;
+  rewrite ?Hhub in *;
+  (* the indexing step: m_hi is not empty (ghost bookkeeping, i_hilen) *)
+  try match goal with
+      | H : m_indexed ?m < length (m_committed ?m) |- _ =>
+          let x := fresh "x" in let rest := fresh "rest" in let Hhi := fresh "Hhi" in
+          destruct (m_hi m) as [|x rest] eqn:Hhi;
+          [ exfalso; clear - Hlen Hhi H; try rewrite Hhi in Hlen; simpl in Hlen; lia | cbn [firstn skipn] in * ]
+      end.
 
 Ltac set_cases i j :=
   destruct (Nat.eq_dec j i) as [->|?]; [rewrite ?set_eq in *|rewrite ?set_neq in * by auto].
@@ -49,14 +63,15 @@ Proof.
   simpl. now rewrite app_nil_r.
 Qed.
 
-Lemma invA_step mode m l m' : InvA mode m -> mstep mode m l m' -> InvA mode m'.
+Lemma invA_step mode m l m' : InvA mode m -> mstep mode m l m' -> m_split m' = [] -> InvA mode m'.
 Proof.
-  intros [I1 I2 I3 I4 I5 I6] St. constructor.
-  - inversion St; subst; proj; rewrite ?app_length; simpl; lia.
-  - inversion St; subst; proj; rewrite ?app_length; simpl; try lia.
+  intros [I1 I2 I3 I4 I5 I6 Hhub] St Hs. pose proof I2 as Hlen. constructor.
+  - inversion St; subst; proj; kill_compact Hs Hhub Hlen; rewrite ?app_length; simpl; lia.
+  - inversion St; subst; proj; kill_compact Hs Hhub Hlen; rewrite ?app_length; simpl; try lia.
+    destruct (m_hi m) as [|x rest] eqn:Hhi. Show.
     match goal with H : m_hi m = _ |- _ => rewrite H in I2 end. simpl in I2. lia.
-  - inversion St; subst; proj; intros j Hj; try (rewrite set_neq by lia); apply I3; lia.
-  - inversion St; subst; proj; intros j Hj.
+  - inversion St; subst; proj; kill_compact Hs Hhub Hlen; intros j Hj; try (rewrite set_neq by lia); apply I3; lia.
+  - inversion St; subst; proj; kill_compact Hs Hhub Hlen; intros j Hj.
     1:{ destruct (Nat.eq_dec j (m_n m)) as [->|Hn].
         - rewrite set_eq. split; [lia|]. intros r Hr. pose proof (I5 (m_n m)) as P.
           unfold phase_ok in P. rewrite (I3 (m_n m)) in P by lia. simpl in P. destruct P. congruence.
@@ -66,7 +81,7 @@ Proof.
     all: destruct (I4 j Hj) as [A B]; split; [lia|]; intros r; set_cases i j;
       [intros Hr; inversion Hr; lia|intros Hr; specialize (B r Hr); lia].
   - intros j. pose proof (I5 j) as P. unfold phase_ok in *.
-    inversion St; subst; proj.
+    inversion St; subst; proj; kill_compact Hs Hhub Hlen.
     1: destruct (Nat.eq_dec j (m_n m)) as [->|?]; [rewrite ?set_eq in *|rewrite ?set_neq in * by auto].
     1: { rewrite (I3 (m_n m)) in P by lia. simpl in P. simpl. intuition. }
     1: { exact P. }
@@ -84,10 +99,11 @@ Proof.
       * rewrite app_length; simpl; lia.
     + destruct P as (A & B & C & D). repeat split; auto.
       intros E. specialize (C E). destruct mode; simpl in C; congruence.
-  - inversion St; subst; proj; intros y tid; try (apply I6); rewrite ?app_length; simpl.
+  - inversion St; subst; proj; kill_compact Hs Hhub Hlen; intros y tid; try (apply I6); rewrite ?app_length; simpl.
     all: set_cases i y; try (intros Hy; inversion Hy; subst; unfold slen; lia);
       try (intros Hy; apply I6 in Hy; lia); try discriminate.
     all: intros Hy; inversion Hy as [Hz]; exfalso; eapply spec_read2_not_tx; eauto.
+  - inversion St; subst; proj; kill_compact Hs Hhub Hlen; auto. lia.
 Qed.
 
 (* ---- membership of the linearization ---- *)
@@ -114,9 +130,9 @@ Qed.
 Lemma eff_none m i : m_res m i = None -> eff m i = false.
 Proof. unfold eff, effective, op_at. simpl. now intros ->. Qed.
 
-Lemma invB_step mode m l m' : InvA mode m -> InvB mode m -> mstep mode m l m' -> InvB mode m'.
+Lemma invB_step mode m l m' : InvA mode m -> InvB mode m -> mstep mode m l m' -> m_split m' = [] -> InvB mode m'.
 Proof.
-  intros A [B1 B2 B3 B4] St.
+  intros A [B1 B2 B3 B4] St Hs. pose proof (i_hub _ _ A) as Hhub. pose proof (i_hilen _ _ A) as Hlen.
   assert (Hnot : forall i c0 nw, m_phase m i = PInvoked c0 nw -> ~ In i (lin m)).
   { intros i c0 nw Hp Hi. apply B1 in Hi as [_ E]. pose proof (i_phase _ _ A i) as P.
     unfold phase_ok in P. rewrite Hp in P. simpl in P. destruct P as [R _].
@@ -127,7 +143,7 @@ Proof.
     rewrite eff_none in E by auto. discriminate. }
   constructor.
   - (* i_lin *)
-    unfold lin, eff, effective in *. inversion St; subst; proj; intros j Hj.
+    unfold lin, eff, effective in *. inversion St; subst; proj; kill_compact Hs Hhub Hlen; intros j Hj.
     + apply B1 in Hj as [? ?]. split; [lia|auto].
     + rewrite app_assoc in Hj. apply in_app_or in Hj as [Hj|[<-|[]]].
       * assert (j <> i) by (intros ->; eapply Hnot; eauto). rewrite set_neq by auto. auto.
@@ -153,7 +169,7 @@ Proof.
     + auto.
     + auto.
   - (* i_nodup *)
-    unfold lin in *. inversion St; subst; proj; auto.
+    unfold lin in *. inversion St; subst; proj; kill_compact Hs Hhub Hlen; auto.
     + rewrite app_assoc. apply (NoDup_Add (Add_app i (m_lo m ++ m_hi m) [])). rewrite app_nil_r.
       split; auto. eapply Hnot; eauto.
     + apply nodup_mid; auto. eapply Hnot; eauto.
@@ -161,7 +177,7 @@ Proof.
     + apply nodup_mid; auto. eapply Hnot1; eauto.
     + apply nodup_mid; auto. eapply Hnot; eauto.
   - (* i_complete *)
-    unfold lin, eff, effective in *. inversion St; subst; proj; intros j Hj Ej.
+    unfold lin, eff, effective in *. inversion St; subst; proj; kill_compact Hs Hhub Hlen; intros j Hj Ej.
     + destruct (Nat.eq_dec j (m_n m)) as [->|?]; [|apply B3; auto; lia].
       pose proof (i_phase _ _ A (m_n m)) as P. unfold phase_ok in P.
       rewrite (i_fresh _ _ A (m_n m)) in P by lia. simpl in P. destruct P as [R _].
@@ -192,7 +208,7 @@ Proof.
   - (* i_hi *)
     assert (Hin : forall j y, nth_error (m_hi m) j = Some y -> In y (lin m)).
     { intros j y Hy. unfold lin. apply in_or_app. right. eapply nth_error_In; eauto. }
-    inversion St; subst; proj; intros j y Hy.
+    inversion St; subst; proj; kill_compact Hs Hhub Hlen; intros j y Hy.
     + pose proof (Hin _ _ Hy) as Hl. apply B1 in Hl as [Hl _].
       rewrite set_neq by lia. eauto.
     + destruct (Nat.lt_ge_cases j (length (m_hi m))) as [Hlt|Hge].
@@ -239,10 +255,10 @@ Proof.
   apply (i_fresh _ _ A) in Hge. destruct W as [(nw & W)|(nw & s1 & W)]; congruence.
 Qed.
 
-Lemma invP_step mode m l m' : InvA mode m -> InvP m -> mstep mode m l m' -> InvP m'.
+Lemma invP_step mode m l m' : InvA mode m -> InvP m -> mstep mode m l m' -> m_split m' = [] -> InvP m'.
 Proof.
-  intros A P St. unfold InvP, waiting in *.
-  inversion St; subst; proj; intros b c1 y tid r W Hres Hlt Hret.
+  intros A P St Hs. pose proof (i_hub _ _ A) as Hhub. pose proof (i_hilen _ _ A) as Hlen. unfold InvP, waiting in *.
+  inversion St; subst; proj; kill_compact Hs Hhub Hlen; intros b c1 y tid r W Hres Hlt Hret.
   - (* invoke *)
     destruct (Nat.eq_dec b (m_n m)) as [->|Hb]; rewrite ?set_eq, ?set_neq in * by auto.
     + destruct W as [(nw' & W)|(nw' & s1 & W)]; [|discriminate]. inversion W; subst.
@@ -314,9 +330,9 @@ Proof.
   - rewrite (apply_indep w (m_committed m) (idx m)) by auto. exact Ap.
 Qed.
 
-Lemma invR_step mode m l m' : InvA mode m -> InvB mode m -> InvR m -> mstep mode m l m' -> InvR m'.
+Lemma invR_step mode m l m' : InvA mode m -> InvB mode m -> InvR m -> mstep mode m l m' -> m_split m' = [] -> InvR m'.
 Proof.
-  intros A B [R1 R2] St.
+  intros A B [R1 R2] St Hs. pose proof (i_hub _ _ A) as Hhub. pose proof (i_hilen _ _ A) as Hlen.
   assert (Hnot : forall i c0 nw, m_phase m i = PInvoked c0 nw -> ~ In i (lin m)).
   { intros i c0 nw Hp Hi. apply (i_lin _ _ B) in Hi as [_ E]. pose proof (i_phase _ _ A i) as P.
     unfold phase_ok in P. rewrite Hp in P. simpl in P. destruct P as [R _].
@@ -326,7 +342,7 @@ Proof.
     unfold phase_ok in P. rewrite Hp in P. simpl in P. destruct P as [R _].
     rewrite eff_none in E by auto. discriminate. }
   unfold InvR, ops, idx in *.
-  inversion St; subst; proj.
+  inversion St; subst; proj; kill_compact Hs Hhub Hlen.
   - (* invoke *)
     split; (eapply run_ext; [|eassumption]); intros x Hx; proj.
     + apply lo_in_lin, (i_lin _ _ B) in Hx as [Hx _]. rewrite set_neq by lia. auto.
@@ -444,9 +460,9 @@ Proof.
 Qed.
 
 Lemma invT_step mode m l m' :
-  InvA mode m -> InvB mode m -> (mode = false -> InvP m) -> InvT m -> mstep mode m l m' -> InvT m'.
+  InvA mode m -> InvB mode m -> (mode = false -> InvP m) -> InvT m -> mstep mode m l m' -> m_split m' = [] -> InvT m'.
 Proof.
-  intros A B P T St.
+  intros A B P T St Hs. pose proof (i_hub _ _ A) as Hhub. pose proof (i_hilen _ _ A) as Hlen.
   assert (Hnot : forall i c0 nw, m_phase m i = PInvoked c0 nw -> ~ In i (lin m)).
   { intros i c0 nw Hp Hi. apply (i_lin _ _ B) in Hi as [_ E]. pose proof (i_phase _ _ A i) as Ph.
     unfold phase_ok in Ph. rewrite Hp in Ph. simpl in Ph. destruct Ph as [R _].
@@ -464,7 +480,7 @@ Proof.
     - pose proof (P eq_refl i c0 x _ r W Hres) as Q. rewrite Nat2N.id in Q.
       specialize (Q ltac:(lia) Hr). lia. }
   unfold InvT, ops, lin in *.
-  inversion St; subst; proj.
+  inversion St; subst; proj; kill_compact Hs Hhub Hlen.
   - (* invoke *)
     eapply rt_ordered_map_ext; [|exact T]. intros a b Ha Hb Hn (r & E & L). proj.
     apply (i_lin _ _ B) in Ha as [Ha _]. rewrite set_neq in L by lia.
@@ -555,10 +571,14 @@ Proof.
   - unfold InvT. simpl. exact I.
 Qed.
 
-Lemma inv_reach mode m : reach mode m -> Inv mode m.
+Lemma split_mono mode m l m' : mstep mode m l m' -> m_split m' = [] -> m_split m = [].
+Proof. intros St. inversion St; subst; proj; auto; discriminate. Qed.
+
+Lemma inv_reach mode m : reach mode m -> m_split m = [] -> Inv mode m.
 Proof.
-  induction 1 as [|m l m' R IH St]; [apply inv_init|].
-  destruct IH as (A & B & P & Rn & T). unfold Inv. split; [|split; [|split; [|split]]].
+  induction 1 as [|m l m' R IH St]; intros Hs; [apply inv_init|].
+  destruct (IH (split_mono _ _ _ _ St Hs)) as (A & B & P & Rn & T).
+  unfold Inv. split; [|split; [|split; [|split]]].
   - eapply invA_step; eauto.
   - eapply invB_step; eauto.
   - eapply invP_step; eauto.
@@ -566,15 +586,13 @@ Proof.
   - eapply invT_step; eauto.
 Qed.
 
-Lemma split_mono mode m l m' : mstep mode m l m' -> m_split m' = [] -> m_split m = [].
-Proof. intros St. inversion St; subst; proj; auto; discriminate. Qed.
 
 (* every history of the machine in which no Get was answered from two different index states is
    linearizable *)
 Theorem kv_linearizable_partial_proof : forall mode m,
   reach mode m -> m_split m = [] -> linearizable (m_hist m).
 Proof.
-  intros mode m R Hs. destruct (inv_reach _ _ R) as (A & B & P & [R1 R2] & T).
+  intros mode m R Hs. destruct (inv_reach _ _ R Hs) as (A & B & P & [R1 R2] & T).
   exists (lin m). unfold m_hist.
   assert (Hlt : forall i, In i (lin m) -> i < m_n m) by (intros i Hi; apply (i_lin _ _ B) in Hi; tauto).
   repeat split.
@@ -595,7 +613,8 @@ Qed.
 
 (* a write that commits had all its preconditions true on the committed state it is appended to,
    and a refusal with the precondition verdict is decided on exactly the committed state *)
-Theorem precondition_atomic_proof : forall mode m l m', mstep mode m l m' ->
+Theorem precondition_atomic_proof : forall mode m l m',
+  reach mode m -> mstep mode m l m' -> m_split m' = [] ->
   (forall i w t, l = LCommit i w t ->
      apply (m_committed m) w = Ok t /\ pre_all (m_committed m) w = true /\
      m_committed m' = m_committed m ++ [t] /\
@@ -605,13 +624,16 @@ Theorem precondition_atomic_proof : forall mode m l m', mstep mode m l m' ->
      m_committed m' = m_committed m /\ m_res m' i = Some (ResErr EPrecond)) /\
   ((forall i w t, l <> LCommit i w t) -> m_committed m' = m_committed m).
 Proof.
-  intros mode m l m' St. split; [|split].
-  - intros i w t ->. inversion St; subst. proj.
+  intros mode m l m' R St Hs.
+  destruct (inv_reach _ _ R (split_mono _ _ _ _ St Hs)) as (A & _).
+  pose proof (i_hub _ _ A) as Hhub.
+  split; [|split].
+  - intros i w t ->. inversion St; subst. proj. rewrite ?Hhub in *.
     assert (Ap : apply (m_committed m) w = Ok t) by (eapply apply_at_commit; eauto).
     repeat split; auto.
     + eapply apply_ok_pre; eauto.
     + now rewrite set_eq.
-  - intros i w ->. inversion St; subst. proj.
+  - intros i w ->. inversion St; subst. proj. rewrite ?Hhub in *.
     match goal with H : if _ then _ else _ |- _ => simpl in H; rewrite (idx_full m H) in * end.
     repeat split; auto.
     + now apply apply_precond_pre.
